@@ -91,10 +91,19 @@ impl Rng {
             *x = self.u8();
         }
     }
+    /// pseudo-random bytes; now and then an edge pattern (all zero / all ones /
+    /// one repeated byte) so that zero- and max-valued fields are exercised too
     pub fn bytes(&mut self, n: usize) -> Vec<u8> {
-        let mut v = vec![0u8; n];
-        self.fill(&mut v);
-        v
+        match self.below(36) {
+            0 => vec![0u8; n],
+            1 => vec![0xffu8; n],
+            2 => vec![self.u8(); n],
+            _ => {
+                let mut v = vec![0u8; n];
+                self.fill(&mut v);
+                v
+            }
+        }
     }
     /// non-zero marker bytes (never 0, so no accidental NUL / end tag)
     pub fn marker_bytes(&mut self, n: usize) -> Vec<u8> {
